@@ -271,6 +271,11 @@ def alphabet_positions(n, m=None):
     return pick(n, 0) | pick(m, n)
 
 
+def VARIANT_PRED(t, v):
+    k = t.get('kind')
+    return (k == 'small' and t['n'] + t['m'] <= 5) or (k == 'square' and t['n'] <= 4)
+
+
 def plan(tier):
     q = tier == 'quick'
     t = []
